@@ -683,21 +683,23 @@ func ruleWIN3(c *Checker, sl *ssa.Function) {
 		c.decide(st.Parent() == add, "WIN-3", "sequenceTop|writer "+fnName(st.Parent()), instrPos(st), "written by addPacket only", "sequenceTop is written outside addPacket")
 	}
 	// send loop: addPacket(p) dominates the first transmission of the same p
-	adds := findCalls(sl, func(ci ssa.CallInstruction) bool { return ci.Common().StaticCallee() == add })
-	firsts := findCalls(sl, func(ci ssa.CallInstruction) bool {
+	// (looking through one level of closures/helpers: "add and send" may be an extracted function)
+	adds := w.effectiveCalls(sl, func(ci ssa.CallInstruction) bool { return ci.Common().StaticCallee() == add })
+	firsts := w.effectiveCalls(sl, func(ci ssa.CallInstruction) bool {
 		sc := ci.Common().StaticCallee()
 		return sc != nil && sc.Name() == "sendPacket"
 	})
 	okQ := len(adds) == 1 && len(firsts) == 1
 	if okQ {
 		a, f := adds[0], firsts[0]
-		var sent ssa.Value
-		for _, arg := range f.Common().Args {
+		var sent, queued ssa.Value
+		for _, arg := range f.Inner.Common().Args {
 			if mi, ok := arg.(*ssa.MakeInterface); ok {
-				sent = mi.X
+				sent = unwrapLoadAlloc(mi.X)
 			}
 		}
-		okQ = instrDominates(a, f) && sent != nil && sent == a.Common().Args[1]
+		queued = unwrapLoadAlloc(a.Inner.Common().Args[1])
+		okQ = effDominates(a, f) && sent != nil && sent == queued && a.Helper == f.Helper
 	}
 	c.decide(okQ, "WIN-3", "sendLoop|queue before first transmission", sl.Pos(), "addPacket(p) dominates sendPacket(p)", "a packet can be transmitted without being in the retransmission queue (or a different packet is queued)")
 	// resend: index phi from base snapshot, step (i+1)%s, until top snapshot, sends content[i]
@@ -785,7 +787,11 @@ func ruleWIN5(c *Checker) {
 		}
 		return false
 	}
-	adds := findCalls(sl, func(ci ssa.CallInstruction) bool { return ci.Common().StaticCallee() == add })
+	effAdds := w.effectiveCalls(sl, func(ci ssa.CallInstruction) bool { return ci.Common().StaticCallee() == add })
+	var adds []ssa.CallInstruction
+	for _, e := range effAdds {
+		adds = append(adds, e.Site)
+	}
 	if len(adds) == 0 {
 		c.fail("WIN-5", "sendLoop|addPacket", sl.Pos(), "the send loop never queues a packet")
 	}
@@ -834,8 +840,11 @@ func ruleWIN5(c *Checker) {
 				nRecv++
 				// the received packet flows to addPacket
 				okFlow := false
-				for _, a := range adds {
-					for _, v := range expandValues(a.Common().Args[1]) {
+				for _, a := range effAdds {
+					if len(a.Args) < 2 || a.Args[1] == nil {
+						continue
+					}
+					for _, v := range expandValues(a.Args[1]) {
 						if v == sc.RecvV {
 							okFlow = true
 						}
